@@ -88,11 +88,26 @@ structure StaleNode where
   staleness : Staleness
   deriving Repr, Inhabited
 
+/-- Start version the sender announces for a member, given the peer's digest entry
+(`0` = the peer must reset its copy). -/
+def senderFrom (s : NodeState) (dGc dMax : Nat) : Nat :=
+  if dGc < s.lastGc ∧ dMax < s.lastGc then 0 else dMax
+
+/-- The node delta the receiver decodes when, for this member, the header, the first `n` stale
+key-values and (when `setMax`) the `SetMaxVersion` op were admitted by the byte budget.
+(`C07_content` shows that `computeDelta` only ever emits node deltas of this form.) -/
+def senderNodeDelta (s : NodeState) (fromExcl n : Nat) (setMax : Bool) : NodeDelta :=
+  let kvs := ((s.staleKvs fromExcl).take n).map NodeState.toKVM
+  { fromExcl := fromExcl, lastGc := s.lastGc, kvs := kvs,
+    maxVersion := match kvs.getLast? with
+      | some kv => kv.version
+      | none => if setMax = true ∧ s.staleKvs fromExcl = [] then s.maxVersion else 0 }
+
 /-- The per-member decision of `compute_partial_delta_respecting_mtu` + `staleness_score`. -/
 def staleNodeOf (i : Id) (s : NodeState) (dGc dMax : Nat) : Option StaleNode :=
   if s.maxVersion ≤ dMax then none
   else
-    let fromExcl := if dGc < s.lastGc ∧ dMax < s.lastGc then 0 else dMax
+    let fromExcl := senderFrom s dGc dMax
     if s.maxVersion ≤ fromExcl then none
     else
       let unknown := fromExcl == 0
@@ -111,11 +126,11 @@ def indexOf (order : List Id) (i : Id) : Nat := order.findIdx (· == i)
 
 /-- Decreasing staleness; ties broken by position in `order` (the shuffle, an oracle argument). -/
 def sortStale (order : List Id) (l : List StaleNode) : List StaleNode :=
-  l.mergeSort (fun a b =>
+  sortBy (fun a b =>
     match Staleness.cmp a.staleness b.staleness with
     | .gt => true
     | .lt => false
-    | .eq => decide (indexOf order a.id ≤ indexOf order b.id))
+    | .eq => decide (indexOf order a.id ≤ indexOf order b.id)) l
 
 /-- The key-value loop for one member. Returns the serializer and whether the budget was hit. -/
 def addKvs (C : Compressor) :
